@@ -88,6 +88,27 @@ def run(P, rep, tier):
                     elif a0[0] == 'v':
                         for mm in members:
                             stored.setdefault(mm, []).append(ev)
+    # helpers: an unconditional call that hands the configuration pointer to a straight-line function of this file which stores
+    # members through that parameter (a group of defaults moved into `static void set_default_x(cfg)`)
+    for ev in d.events(('call',)):
+        n = callee_name(ev['e'])
+        if not n or d.ctl_chain(ev):
+            continue
+        for g in P.resolve(n, d):
+            if g.nocfg or g.file != d.file:
+                continue
+            pos = [i for i, a in enumerate(ev['e'][2]) if strip(a) and strip(a)[0] == 'v' and strip(a)[1] == pname]
+            if not pos or pos[0] >= len(g.params):
+                continue
+            gp = g.params[pos[0]][0]
+            if any(len([s_ for s_ in b['succ'] if s_ is not None]) > 1 for bid, b in g.blocks.items() if bid in g.reach()):
+                continue                         # a branching helper does not store "on every path"
+            for sev in g.events(('st',)):
+                if sev['e'][0] == 'a':
+                    m = member_of(sev['e'][2])
+                    r = root_of(strip(sev['e'][2]))
+                    if m and r is not None and r[1] == gp:
+                        stored.setdefault(m, []).append(sev)
     # sub-members for struct-typed members
     sub = {}
     for f in rec['fields']:
